@@ -842,7 +842,7 @@ func max(a, b int) int {
 // ---------------------------------------------------------------- main
 
 var biases = map[string]bias{
-	"step":   {fail: 0.25, perm: 0.15, emit: 0, bad: 0.03, loop: 0.0, native: 0.3, nilbs: 0, guard: 0.35},
+	"step":   {fail: 0.25, perm: 0.15, emit: 0, bad: 0.03, loop: 0.0, native: 0.3, nilbs: 0.06, guard: 0.35},
 	"frame":  {fail: 0.5, perm: 0.15, emit: 0, bad: 0.05, loop: 0.0, native: 0.3, nilbs: 0, guard: 0.4, typed: 0.2},
 	"total":  {fail: 0.6, perm: 0.4, emit: 0, bad: 0.1, loop: 0.03, native: 0.4, nilbs: 0.15, guard: 0.5},
 	"exotic": {fail: 0.3, perm: 0.2, emit: 0, bad: 0.0, loop: 0.0, native: 0.2, nilbs: 0.05, guard: 0.5, exotic: 0.5},
